@@ -120,18 +120,44 @@ def run_contention(nprocs, rounds, hows):
 
 
 # ------------------------------------------------------------------ C13 ----
-SCENARIOS = ['blocking', 'timed', 'with', 'ctx', 'nested', 'contended', 'helper', 'failing']
+SCENARIOS = ['blocking', 'timed', 'with', 'ctx', 'nested', 'contended', 'helper', 'failing',
+             'forked-blocking', 'forked-timed', 'forked-nested']
+# 'forked-X': a supervisor process creates the FileLock object, uses it once (one successful and one failed attempt), then
+# fork()s the victim, which runs scenario X on the inherited object; the supervisor stays alive during the probe
 HANG_GUARD_S = 15.0     # wall-clock hang guard only; contenders need milliseconds
 
 
-def _scenario(name, path, F):
+def _mklock(name, path, F):
+    if name == 'timed':
+        return F.FileLock(path, timeout=0.05)
+    if name == 'nested':
+        return F.FileLock(path, reentrant=True)
+    return F.FileLock(path)
+
+
+def _preuse(name, path, F):
+    """What the supervisor of a 'forked-X' scenario does before it forks: ordinary earlier use of the object."""
+    l = _mklock(name, path, F)
+    other = F.FileLock(path)
+    other.acquire()
+    l.acquire(blocking=False)       # a failed attempt
+    other.release()
+    l.acquire(timeout=-1)           # a successful use (waits for contenders however long they take)
+    l.release()
+    assert not l.is_locked
+    return l
+
+
+def _scenario(name, path, F, l=None):
     """The code the victim runs; every line event inside aiuti/filelock.py is a crash point."""
+    if name.startswith('forked-'):
+        name = name[len('forked-'):]
     if name == 'blocking':
-        l = F.FileLock(path)
+        l = l or _mklock(name, path, F)
         l.acquire()
         l.release()
     elif name == 'timed':
-        l = F.FileLock(path, timeout=0.05)
+        l = l or _mklock(name, path, F)
         if l.acquire(poll_interval=0.005):
             l.release()
     elif name == 'with':
@@ -144,7 +170,7 @@ def _scenario(name, path, F):
         with cm:
             pass
     elif name == 'nested':
-        l = F.FileLock(path, reentrant=True)
+        l = l or _mklock(name, path, F)
         with l:
             with l:
                 pass
@@ -240,10 +266,11 @@ def count_events(name, want_lines=False):
                 seen.add(frame.f_lineno)
             return lt
         import threading as _th
+        pre = _preuse(name[len('forked-'):], os.path.join(d, 'lock'), F) if name.startswith('forked-') else None
         _th.settrace(tr)
         sys.settrace(tr)
         try:
-            _scenario(name, os.path.join(d, 'lock'), F)
+            _scenario(name, os.path.join(d, 'lock'), F, pre)
         finally:
             sys.settrace(None)
         os.write(w_, (str(n[0]) + ' ' + ','.join(map(str, sorted(seen)))).encode())
@@ -284,10 +311,59 @@ def crash_at(name, n, ncontenders=0, rounds=10):
                 code = 3
             os._exit(code)
         cps.append((pid, out))
+    forked = name.startswith('forked-')
+    sup_r = sup_w = hold_r = hold_w = None
+    if forked:
+        sup_r, sup_w = os.pipe()      # supervisor -> harness: exit status of the victim
+        hold_r, hold_w = os.pipe()    # harness -> supervisor: closed when the probe is over
     pid = os.fork()
+    if pid == 0 and forked:
+        # ---- supervisor: earlier use of the object, fork the victim, stay alive until told to go
+        os.close(sup_r)
+        os.close(hold_w)
+        try:
+            pre = _preuse(name[len('forked-'):], path, F)
+            vpid = os.fork()
+            if vpid == 0:
+                os.close(sup_w)
+                os.close(hold_r)
+                _victim(name, n, path, info_path, F, pre)
+                os._exit(0)
+            _, vst = os.waitpid(vpid, 0)
+            vk = os.WIFSIGNALED(vst) and os.WTERMSIG(vst) == signal.SIGKILL
+            os.write(sup_w, b'K' if vk else b'N')
+            os.close(sup_w)
+            os.read(hold_r, 1)        # EOF when the harness has probed
+        except BaseException:  # noqa
+            import traceback
+            traceback.print_exc()
+            os._exit(3)
+        os._exit(0)
     if pid == 0:
+        _victim(name, n, path, info_path, F, None)
+        os._exit(0)
+    if forked:
+        os.close(sup_w)
+        os.close(hold_r)
+        b = os.read(sup_r, 1)
+        os.close(sup_r)
+        killed = b == b'K'
+        if b == b'':
+            os.close(hold_w)
+            os.waitpid(pid, 0)
+            import shutil
+            shutil.rmtree(d, ignore_errors=True)
+            raise RuntimeError('supervisor of %s died before reporting' % name)
+    else:
+        _, st = os.waitpid(pid, 0)
+        killed = os.WIFSIGNALED(st) and os.WTERMSIG(st) == signal.SIGKILL
+    return _after_kill(F, d, path, info_path, cps, killed, (pid, hold_w) if forked else None)
+
+
+def _victim(name, n, path, info_path, F, pre):
+    if True:
         cnt = [0]
-        locks = []
+        locks = [pre] if pre is not None else []
         orig_init = F.BaseFileLock.__init__
 
         def init(self, *a, **k):
@@ -313,12 +389,13 @@ def crash_at(name, n, ncontenders=0, rounds=10):
         _th.settrace(tr)
         sys.settrace(tr)
         try:
-            _scenario(name, path, F)
+            _scenario(name, path, F, pre)
         except BaseException:  # noqa
             pass
         os._exit(0)
-    _, st = os.waitpid(pid, 0)
-    killed = os.WIFSIGNALED(st) and os.WTERMSIG(st) == signal.SIGKILL
+
+
+def _after_kill(F, d, path, info_path, cps, killed, supervisor):
     info = json.load(open(info_path)) if os.path.exists(info_path) else {}
     surv = []
     hung = False
@@ -343,6 +420,9 @@ def crash_at(name, n, ncontenders=0, rounds=10):
     wait = time.monotonic() - t0
     if ok:
         probe.release()
+    if supervisor is not None:
+        os.close(supervisor[1])
+        os.waitpid(supervisor[0], 0)
     try:
         counter = int(open(path + '.counter').read() or 0)
     except (FileNotFoundError, ValueError):
